@@ -62,6 +62,14 @@ def unit_stft(prop, which):
     return unit
 
 
+def _lazy(module, fn, prop):
+    def unit(tier, known):
+        import importlib
+        return getattr(importlib.import_module(module), fn)(prop)(tier, known)
+    unit.__name__ = fn
+    return unit
+
+
 def _scales(prop):
     from contracts import scales
     return scales.unit_scales(prop)
@@ -157,7 +165,17 @@ def unit_tri(prop, which):
     return unit
 
 
+def unit_circshift(prop):
+    def unit(tier, known):
+        from contracts import util_misc as C
+        return run_contract(prop, ("util", "circshift_fourier"), C.contract_circshift(), [("dft_given", C.setup_circshift(False)), ("dft_default", C.setup_circshift(True))],
+                            name="circshift_fourier", to_case=C.to_case_circshift, replay_module="rtc.c20")
+    unit.__name__ = "circshift_fourier"
+    return unit
+
+
 UNITS = {
+    "C20": [unit_circshift("C20"), _lazy("contracts.util_misc", "unit_angular", "C20")],
     "C05": [unit_tri("C05", "init"), unit_tri("C05", "truncated")],
     "C06": [unit_tri("C06", "truncated")],
     "C14": [unit_torch_stft("C14")],
